@@ -56,9 +56,10 @@ type Contract struct {
 }
 
 type LetDef struct {
-	Name string
-	Expr *Node
-	Src  string
+	Name   string
+	Params []string
+	Expr   *Node
+	Src    string
 }
 
 type Theory struct {
@@ -309,7 +310,14 @@ func (sp *Specs) parseText(file string, lines []string, nums []int) error {
 			if err != nil {
 				return fail(err)
 			}
-			cur.Lets = append(cur.Lets, LetDef{Name: strings.TrimSpace(rest[:j]), Expr: n, Src: rest})
+			ld := LetDef{Name: strings.TrimSpace(rest[:j]), Expr: n, Src: rest}
+			if k := strings.Index(ld.Name, "("); k >= 0 && strings.HasSuffix(ld.Name, ")") {
+				for _, p := range strings.Split(ld.Name[k+1:len(ld.Name)-1], ",") {
+					ld.Params = append(ld.Params, strings.TrimSpace(p))
+				}
+				ld.Name = ld.Name[:k]
+			}
+			cur.Lets = append(cur.Lets, ld)
 		case "modifies":
 			for _, m := range strings.Split(rest, ",") {
 				m = strings.TrimSpace(m)
